@@ -143,16 +143,23 @@ Shallow(f, s) ==
         /\ ~HasDVal(s, Ps(f)[x].k)}}
 
 -----------------------------------------------------------------------------
-(* Build order of the parameters of a function: declaration order, except that inside *)
-(* one parameter object (a maximal run of equal o > 0) soft groups are built last.    *)
+(* Build order of the parameters of a function (paramList.BuildList / paramObject.Build). *)
+(* Every flat parameter carries op, the path of parameter objects that hold it: <<>> for  *)
+(* a positional parameter, <<o>> for a direct field of the top-level object o, <<o, x>>   *)
+(* for a field of the object nested in o as x, and so on; the fields of one object are    *)
+(* contiguous.  Positional parameters and the fields of an object are built in            *)
+(* declaration order - a nested object is built completely at the position of its field - *)
+(* except that the soft groups that are direct fields of an object are built after all    *)
+(* its other fields.                                                                      *)
 
-RunStart(ps, j) == j = 1 \/ ps[j].o = 0 \/ ps[j].o # ps[j-1].o
-RunOf(ps, j)    == Cardinality({x \in 1..j : RunStart(ps, x)})
-SoftRank(ps, j) == IF ps[j].m = "soft" /\ ps[j].o > 0 THEN 1 ELSE 0
+\* length of the longest common prefix of two paths
+Common(a, b) == Max({d \in 0..Min({Len(a), Len(b)}) : SubSeq(a, 1, d) = SubSeq(b, 1, d)})
+\* 1 iff parameter j is a soft group that is a direct field of the object at depth d
+SoftRank(ps, j, d) == IF d > 0 /\ Len(ps[j].op) = d /\ ps[j].m = "soft" THEN 1 ELSE 0
 BLess(ps, a, b) ==
-  LET ra == RunOf(ps, a)  rb == RunOf(ps, b)
-      sa == SoftRank(ps, a) sb == SoftRank(ps, b)
-  IN  ra < rb \/ (ra = rb /\ (sa < sb \/ (sa = sb /\ a < b)))
+  LET d  == Common(ps[a].op, ps[b].op)
+      sa == SoftRank(ps, a, d)  sb == SoftRank(ps, b, d)
+  IN  sa < sb \/ (sa = sb /\ a < b)
 BO(f) == SetToSortSeq(1..Len(Ps(f)), LAMBDA a, b : BLess(Ps(f), a, b))
 
 -----------------------------------------------------------------------------
